@@ -230,6 +230,12 @@ impl DB {
     pub fn check(&self) -> Result<()> {
         self.tx(false)?.check()
     }
+
+    #[cfg(feature = "verif-hooks")]
+    #[doc(hidden)]
+    pub fn verif_probe_locks(&self) -> [bool; 6] {
+        self.inner.verif_probe_locks()
+    }
 }
 pub(crate) struct DBInner {
     pub(crate) data: Mutex<Arc<Mmap>>,
@@ -273,12 +279,34 @@ impl DBInner {
     }
 
     pub(crate) fn resize(&self, file: &File, new_size: u64) -> Result<Arc<Mmap>> {
+        #[cfg(feature = "verif-hooks")]
+        crate::verif_hooks::emit("resize:before_fallocate", &[new_size], &[]);
         file.allocate(new_size)?;
+        #[cfg(feature = "verif-hooks")]
+        crate::verif_hooks::emit("resize:before_wlock", &[new_size], &[]);
         let _lock = self.mmap_lock.write()?;
+        #[cfg(feature = "verif-hooks")]
+        crate::verif_hooks::emit("resize:after_wlock", &[new_size], &[]);
         let mut data = self.data.lock()?;
         let mmap = mmap(file, self.flags.mmap_populate)?;
         *data = Arc::new(mmap);
+        #[cfg(feature = "verif-hooks")]
+        crate::verif_hooks::emit("resize:after_remap", &[new_size], &[]);
         Ok(data.clone())
+    }
+
+    /// Which of the five locks could be taken right now (true = free):
+    /// [file, mmap_lock (write), mmap_lock (read), data, freelist, open_ro_txs]
+    #[cfg(feature = "verif-hooks")]
+    pub(crate) fn verif_probe_locks(&self) -> [bool; 6] {
+        [
+            self.file.try_lock().is_ok(),
+            self.mmap_lock.try_write().is_ok(),
+            self.mmap_lock.try_read().is_ok(),
+            self.data.try_lock().is_ok(),
+            self.freelist.try_lock().is_ok(),
+            self.open_ro_txs.try_lock().is_ok(),
+        ]
     }
 
     pub(crate) fn meta(&self) -> Result<Meta> {
